@@ -70,6 +70,7 @@ def run(tier):
                            'disconnect() racing the loops', impl='sync', cfg={}, preempt=seed,
                       scripts=K.random_scripts(seed + 9, 300 if th else 60, 24, None, w_pre)))
     K.conform(ck, plans)
+    K.l2_client(ck, th, seed)
     ck.cov['rule'] = ('case = one scripted-server script (replies, failures, frames, clock) with '
                       'application calls, on one client implementation; distinct by recorded action '
                       'sequence')
